@@ -63,6 +63,10 @@ class C08(F.Check):
         rep_pairs = REP_PAIRS_Q if self.tier == "quick" else REP_PAIRS_T
         upairs = [(runit(a), runit(b), a / gcd_frac(a, b), b / gcd_frac(a, b), "%s|%s" % (a, b)) for a, b in RATIO_PAIRS]
         upairs += [(a, b, k1, k2, "%s|%s" % (a, b)) for a, b, k1, k2 in LIB_PAIRS]
+        # the same scaled units written with a redundant factor one: 3 m as 3/1 m, 3 m * 1, (1/12 ft) / 1 - alternative spellings, same unit
+        upairs += [("decltype(Meters{} * mag<3>() / mag<1>())", "Meters", Fraction(3), Fraction(1), "3/1 m|m"),
+                   ("decltype(Meters{} * mag<3>() * mag<1>())", "decltype(Meters{} * mag<2>())", Fraction(3), Fraction(2), "3 m * 1|2 m"),
+                   ("decltype(Feet{} / mag<12>() / mag<1>())", "Feet", Fraction(1), Fraction(12), "(ft/12)/1|ft")]
         for ui, (u1, u2, k1, k2, lab) in enumerate(upairs):
             k1, k2 = int(k1), int(k2)
             for ri, (r1, r2) in enumerate(rep_pairs):
